@@ -401,3 +401,12 @@ Definition adjust_flat (case : Z * Z * list (list Z)) : list Z :=
   | Some rows => 0 :: zlen rows :: concat rows
   | None => [1]
   end.
+
+(* ---------------------------------------------------------------------- *)
+From Coq Require Import String.
+(* the registry Statistics.available_methods this model was written for:
+   (name, req_feature) in registration order *)
+Definition model_stat_methods : list (string * bool) :=
+  [("Mean", true); ("Median", true); ("Mode", true); ("SD", true);
+   ("Events", false); ("%-gated", false); ("Flow rate", false)]%string.
+
